@@ -102,6 +102,9 @@ def main():
         os.makedirs(dst, exist_ok=True)
         open(os.path.join(dst, 'patch.diff'), 'w').write(patch)
         shutil.copy(demo, os.path.join(dst, 'demo.py'))
+        for f in os.listdir(src):  # helper modules the demonstration imports
+            if f.endswith('.py') and f != 'demo.py' and os.path.isfile(os.path.join(src, f)):
+                shutil.copy(os.path.join(src, f), os.path.join(dst, f))
         if os.path.exists(os.path.join(src, 'notes.md')):
             shutil.copy(os.path.join(src, 'notes.md'), os.path.join(dst, 'notes.md'))
             notes = open(os.path.join(src, 'notes.md')).read()
